@@ -234,16 +234,23 @@ Proof.
   - intros Q. unfold tk_arm. rewrite Q. split; reflexivity.
 Qed.
 
+Lemma try_assemble_inv : forall c s, Inv c s -> stat s <> Running -> Inv c (fst (try_assemble c s)).
+Proof.
+  intros c s I Hn. unfold try_assemble.
+  destruct (Nat.ltb (length (srs s)) (wc c) || Nat.ltb (length (ops s)) (wc c)) eqn:C; [exact I|].
+  apply orb_false_iff in C. destruct C as [C1 C2]. apply PeanoNat.Nat.ltb_ge in C1, C2. apply start_begin_inv; assumption.
+Qed.
+
 Lemma evaluate_inv : forall c s, Inv c s -> Inv c (fst (evaluate c s)).
 Proof.
   intros c s I. apply purge_inv in I. unfold evaluate. set (s' := purge c s) in *.
   destruct (stat s') eqn:E.
-  - destruct (Nat.ltb (length (srs s')) (wc c) || Nat.ltb (length (ops s')) (wc c)) eqn:C; [exact I|].
-    apply orb_false_iff in C. destruct C as [C1 C2]. apply PeanoNat.Nat.ltb_ge in C1, C2. apply start_begin_inv; try assumption; congruence.
-  - destruct (Nat.ltb (length (srs s')) (wc c) || Nat.ltb (length (ops s')) (wc c)) eqn:C; [exact I|].
-    apply orb_false_iff in C. destruct C as [C1 C2]. apply PeanoNat.Nat.ltb_ge in C1, C2. apply start_begin_inv; try assumption; congruence.
+  - apply try_assemble_inv; [exact I | congruence].
+  - apply try_assemble_inv; [exact I | congruence].
   - exact I.
-  - destruct (healthy s'); [exact I|]. cbn [fst]. apply set_stat_inv; [exact I | congruence].
+  - destruct (healthy s'); [exact I|].
+    assert (Ip : Inv c (set_stat s' Paused)) by (apply set_stat_inv; [exact I | congruence]).
+    destruct (pick s'); [|exact Ip]. apply try_assemble_inv; [exact Ip | discriminate].
 Qed.
 
 Lemma mark_keys : forall x l l', mark x l = Some l' -> map fst l' = map fst l.
@@ -574,37 +581,53 @@ Record dep_ok (c : cfg) (s' : st) (d : dep) : Prop := MkDepOk {
   k_pend : q_keep_pending (qk c) = false -> q_keep_savepoint (qk c) = false -> pend (sto s') = None
 }.
 
-Lemma start_begin_deps : forall c s, Inv c s ->
-  (wc c <= length (ops (purge c s)))%nat -> (wc c <= length (srs (purge c s)))%nat ->
-  forall d, In d (snd (start_begin c (purge c s))) -> dep_ok c (fst (start_begin c (purge c s))) d.
+(* every registered node of the state is within the heartbeat deadline (true right after the purge) *)
+Definition fresh (c : cfg) (sp : st) : Prop :=
+  (forall n, In n (ops sp) -> live_in c sp (true, n)) /\ (forall n, In n (srs sp) -> live_in c sp (false, n)).
+
+Lemma purge_fresh : forall c s, Inv c s -> fresh c (purge c s).
+Proof. intros c s I. split; intros n H; [apply purged_live_op | apply purged_live_sr]; assumption. Qed.
+
+Lemma set_stat_fresh : forall c sp x, fresh c sp -> fresh c (set_stat sp x).
+Proof. intros c sp x [A B]. split; intros n H; [apply (A n H) | apply (B n H)]. Qed.
+
+Lemma start_begin_deps : forall c sp, Inv c sp -> fresh c sp ->
+  (wc c <= length (ops sp))%nat -> (wc c <= length (srs sp))%nat ->
+  forall d, In d (snd (start_begin c sp)) -> dep_ok c (fst (start_begin c sp)) d.
 Proof.
-  intros c s I Ho Hr d Hd. pose proof (purge_inv _ _ I) as Ip. set (sp := purge c s) in *.
+  intros c sp Ip [Fo Fr] Ho Hr d Hd.
   cbn [start_begin snd] in Hd. destruct Hd as [<-|[]].
   unfold start_begin. constructor; cbn [fst d_ops d_srs d_ck d_peers stat a_ops a_srs ops srs hb now sto completed dep_ck]; auto.
   - apply (choose_ops_spec c sp (i_sops _ _ Ip) Ho).
   - apply (choose_srs_spec c sp (i_ssrs _ _ Ip) Hr).
   - apply sorted_NoDup, (choose_ops_spec c sp (i_sops _ _ Ip) Ho).
   - apply sorted_NoDup, (choose_srs_spec c sp (i_ssrs _ _ Ip) Hr).
-  - intros n Hn. apply (choose_ops_spec c sp (i_sops _ _ Ip) Ho) in Hn. split; [exact Hn|]. apply (purged_live_op c s n I Hn).
-  - intros n Hn. apply (choose_srs_spec c sp (i_ssrs _ _ Ip) Hr) in Hn. split; [exact Hn|]. apply (purged_live_sr c s n I Hn).
+  - intros n Hn. apply (choose_ops_spec c sp (i_sops _ _ Ip) Ho) in Hn. split; [exact Hn|]. apply (Fo n Hn).
+  - intros n Hn. apply (choose_srs_spec c sp (i_ssrs _ _ Ip) Hr) in Hn. split; [exact Hn|]. apply (Fr n Hn).
   - intros Q1 Q2. cbn [pend]. rewrite Q1, Q2. cbn [andb]. destruct (pend (sto sp)); reflexivity.
 Qed.
 
-Lemma evaluate_deps : forall c s d, Inv c s -> In d (snd (evaluate c s)) ->
-  snd (evaluate c s) = [d] /\ dep_ok c (fst (evaluate c s)) d /\ (stat s = Init \/ stat s = Paused).
+Lemma try_assemble_deps : forall c sp d, Inv c sp -> fresh c sp -> In d (snd (try_assemble c sp)) ->
+  snd (try_assemble c sp) = [d] /\ dep_ok c (fst (try_assemble c sp)) d.
 Proof.
-  intros c s d I Hd. unfold evaluate in *. set (sp := purge c s) in *.
-  assert (Es : stat sp = stat s) by reflexivity.
+  intros c sp d I F Hd. unfold try_assemble in *.
+  destruct (Nat.ltb (length (srs sp)) (wc c) || Nat.ltb (length (ops sp)) (wc c)) eqn:C; [contradiction|].
+  apply orb_false_iff in C. destruct C as [C1 C2]. apply PeanoNat.Nat.ltb_ge in C1, C2.
+  split; [|apply (start_begin_deps c sp I F C2 C1 d Hd)].
+  cbn [start_begin snd] in *. destruct Hd as [<-|[]]. reflexivity.
+Qed.
+
+Lemma evaluate_deps : forall c s d, Inv c s -> In d (snd (evaluate c s)) ->
+  snd (evaluate c s) = [d] /\ dep_ok c (fst (evaluate c s)) d.
+Proof.
+  intros c s d I Hd. pose proof (purge_inv _ _ I) as Ip. pose proof (purge_fresh _ _ I) as Fp.
+  unfold evaluate in *. set (sp := purge c s) in *.
   destruct (stat sp) eqn:E; cbn [snd] in Hd; try contradiction.
-  - destruct (Nat.ltb (length (srs sp)) (wc c) || Nat.ltb (length (ops sp)) (wc c)) eqn:C; [contradiction|].
-    apply orb_false_iff in C. destruct C as [C1 C2]. apply PeanoNat.Nat.ltb_ge in C1, C2.
-    split; [|split; [apply (start_begin_deps c s I C2 C1 d Hd) | left; congruence]].
-    cbn [start_begin snd] in *. destruct Hd as [<-|[]]. reflexivity.
-  - destruct (Nat.ltb (length (srs sp)) (wc c) || Nat.ltb (length (ops sp)) (wc c)) eqn:C; [contradiction|].
-    apply orb_false_iff in C. destruct C as [C1 C2]. apply PeanoNat.Nat.ltb_ge in C1, C2.
-    split; [|split; [apply (start_begin_deps c s I C2 C1 d Hd) | right; congruence]].
-    cbn [start_begin snd] in *. destruct Hd as [<-|[]]. reflexivity.
-  - destruct (healthy sp); contradiction.
+  - apply try_assemble_deps; assumption.
+  - apply try_assemble_deps; assumption.
+  - destruct (healthy sp); [contradiction|].
+    destruct (pick sp); [|contradiction].
+    apply try_assemble_deps; [apply set_stat_inv; [exact Ip | congruence] | apply set_stat_fresh, Fp | exact Hd].
 Qed.
 
 Lemma step_deps : forall c s o d, Inv c s -> In d (o_deps (snd (step c s o))) ->
@@ -612,7 +635,7 @@ Lemma step_deps : forall c s o d, Inv c s -> In d (o_deps (snd (step c s o))) ->
 Proof.
   intros c s o d I Hd. destruct (pre c s o) as [s1|] eqn:P.
   - destruct (step_eval c s o s1 P) as [E1 [E2 _]]. rewrite E2 in *. rewrite E1.
-    destruct (evaluate_deps c s1 d (pre_inv _ _ _ _ I P) Hd) as [A [B _]]. auto.
+    destruct (evaluate_deps c s1 d (pre_inv _ _ _ _ I P) Hd) as [A B]. auto.
   - destruct (step_noeval c s o P) as [E _]. rewrite E in Hd. contradiction.
 Qed.
 
@@ -624,10 +647,15 @@ Lemma evaluate_running : forall c s, Inv c s -> stat (fst (evaluate c s)) = Runn
 Proof.
   intros c s I H. unfold evaluate in *. set (sp := purge c s) in *.
   destruct (stat sp) eqn:E.
-  - destruct (Nat.ltb (length (srs sp)) (wc c) || Nat.ltb (length (ops sp)) (wc c)); cbn [fst start_begin stat] in H; congruence.
-  - destruct (Nat.ltb (length (srs sp)) (wc c) || Nat.ltb (length (ops sp)) (wc c)); cbn [fst start_begin stat] in H; congruence.
+  - unfold try_assemble in H. destruct (Nat.ltb (length (srs sp)) (wc c) || Nat.ltb (length (ops sp)) (wc c)); cbn [fst start_begin stat] in H; congruence.
+  - unfold try_assemble in H. destruct (Nat.ltb (length (srs sp)) (wc c) || Nat.ltb (length (ops sp)) (wc c)); cbn [fst start_begin stat] in H; congruence.
   - cbn [fst] in H. congruence.
-  - destruct (healthy sp) eqn:Hh; [|cbn [fst set_stat stat] in H; discriminate]. cbn [fst].
+  - destruct (healthy sp) eqn:Hh.
+    2:{ exfalso. destruct (pick sp); [|cbn [fst set_stat stat] in H; discriminate].
+        unfold try_assemble in H.
+        destruct (Nat.ltb (length (srs (set_stat sp Paused))) (wc c) || Nat.ltb (length (ops (set_stat sp Paused))) (wc c));
+          cbn [fst start_begin set_stat stat] in H; discriminate. }
+    cbn [fst].
     unfold healthy in Hh. apply andb_true_iff in Hh. destruct Hh as [Hr Ho]. rewrite forallb_forall in Hr, Ho.
     split; intros n Hn.
     + specialize (Ho n Hn). apply mem_In in Ho. split; [exact Ho | apply purged_live_op; assumption].
@@ -636,7 +664,7 @@ Qed.
 
 Lemma unhealthy_paused : forall c s, stat s = Running ->
   ((exists n, In n (a_ops s) /\ ~ In n (ops (purge c s))) \/ (exists n, In n (a_srs s) /\ ~ In n (srs (purge c s)))) ->
-  stat (fst (evaluate c s)) = Paused.
+  stat (fst (evaluate c s)) = Paused \/ stat (fst (evaluate c s)) = Starting.
 Proof.
   intros c s E H. unfold evaluate. set (sp := purge c s) in *. change (stat sp) with (stat s). rewrite E.
   assert (Hh : healthy sp = false).
@@ -645,7 +673,10 @@ Proof.
       specialize (F n Hn). apply mem_In in F. contradiction.
     - apply andb_false_iff. left. apply not_true_iff_false. intros F. rewrite forallb_forall in F.
       specialize (F n Hn). apply mem_In in F. contradiction. }
-  rewrite Hh. reflexivity.
+  rewrite Hh. destruct (pick sp); [|left; reflexivity].
+  unfold try_assemble.
+  destruct (Nat.ltb (length (srs (set_stat sp Paused))) (wc c) || Nat.ltb (length (ops (set_stat sp Paused))) (wc c));
+    [left | right]; reflexivity.
 Qed.
 
 Lemma dead_not_in_purged_op : forall c s n t, In ((true, n), t) (hb s) -> t + deadline c < now s -> ~ In n (ops (purge c s)).
@@ -732,11 +763,12 @@ Lemma step_pub_cases : forall c s o, Inv c s -> q_install_superseded (qk c) = fa
 Proof.
   intros c s o I Q.
   assert (EV : forall s1, completed (sto (fst (evaluate c s1))) = completed (sto s1)).
-  { intros s1. unfold evaluate. set (sp := purge c s1). change (completed (sto s1)) with (completed (sto sp)).
+  { intros s1. unfold evaluate, try_assemble. set (sp := purge c s1). change (completed (sto s1)) with (completed (sto sp)).
     destruct (stat sp); try reflexivity.
-    - destruct (_ || _); reflexivity.
-    - destruct (_ || _); reflexivity.
-    - destruct (healthy sp); reflexivity. }
+    - destruct (Nat.ltb _ _ || Nat.ltb _ _); reflexivity.
+    - destruct (Nat.ltb _ _ || Nat.ltb _ _); reflexivity.
+    - destruct (healthy sp); [reflexivity|]. destruct (pick sp); [|reflexivity].
+      destruct (Nat.ltb _ _ || Nat.ltb _ _); reflexivity. }
   destruct o; cbn [step].
   1-4: match goal with |- context [evaluate ?cc ?x] => pose proof (EV x) as X; destruct (evaluate cc x) as [s2 ds] end;
        cbn [fst snd o_published mk_obs] in *; rewrite X; cbn; left; auto.
@@ -923,7 +955,7 @@ Proof.
 Qed.
 
 Lemma deregistered_operator_pauses_proof : forall c l n,
-  stat (exec c l) = Running -> In n (a_ops (exec c l)) -> stat (fst (step c (exec c l) (ODeregOp n))) = Paused.
+  stat (exec c l) = Running -> In n (a_ops (exec c l)) -> stat (fst (step c (exec c l) (ODeregOp n))) = Paused \/ stat (fst (step c (exec c l) (ODeregOp n))) = Starting.
 Proof.
   intros c l n E Hn. set (s := exec c l) in *.
   destruct (step_eval c s (ODeregOp n) _ eq_refl) as [-> _]. apply unhealthy_paused; [exact E|].
@@ -932,7 +964,7 @@ Proof.
 Qed.
 
 Lemma deregistered_runner_pauses_proof : forall c l n,
-  stat (exec c l) = Running -> In n (a_srs (exec c l)) -> stat (fst (step c (exec c l) (ODeregSr n))) = Paused.
+  stat (exec c l) = Running -> In n (a_srs (exec c l)) -> stat (fst (step c (exec c l) (ODeregSr n))) = Paused \/ stat (fst (step c (exec c l) (ODeregSr n))) = Starting.
 Proof.
   intros c l n E Hn. set (s := exec c l) in *.
   destruct (step_eval c s (ODeregSr n) _ eq_refl) as [-> _]. apply unhealthy_paused; [exact E|].
@@ -944,7 +976,7 @@ Lemma expired_operator_pauses_proof : forall c l n t o s1,
   stat (exec c l) = Running -> In n (a_ops (exec c l)) ->
   hb_get (true, n) (hb (exec c l)) = Some t -> t + deadline c < now (exec c l) ->
   pre c (exec c l) o = Some s1 -> o <> ORegOp n ->
-  stat (fst (step c (exec c l) o)) = Paused.
+  stat (fst (step c (exec c l) o)) = Paused \/ stat (fst (step c (exec c l) o)) = Starting.
 Proof.
   intros c l n t o s1 E Hn Hg Hlt P Hne. set (s := exec c l) in *.
   destruct (step_eval c s o s1 P) as [-> _].
@@ -960,7 +992,7 @@ Lemma expired_runner_pauses_proof : forall c l n t o s1,
   stat (exec c l) = Running -> In n (a_srs (exec c l)) ->
   hb_get (false, n) (hb (exec c l)) = Some t -> t + deadline c < now (exec c l) ->
   pre c (exec c l) o = Some s1 -> o <> ORegSr n ->
-  stat (fst (step c (exec c l) o)) = Paused.
+  stat (fst (step c (exec c l) o)) = Paused \/ stat (fst (step c (exec c l) o)) = Starting.
 Proof.
   intros c l n t o s1 E Hn Hg Hlt P Hne. set (s := exec c l) in *.
   destruct (step_eval c s o s1 P) as [-> _].
@@ -1015,7 +1047,7 @@ Proof.
   unfold evaluate. set (sp := purge c s1). change (stat sp) with (stat s1).
   assert (X : forall b : bool, (if b then (sp, @nil dep) else start_begin c sp) =
               (if b then (sp, []) else start_begin c sp)) by reflexivity.
-  destruct E as [E|E]; rewrite E;
+  destruct E as [E|E]; rewrite E; unfold try_assemble;
   destruct (Nat.ltb (length (srs sp)) (wc c) || Nat.ltb (length (ops sp)) (wc c)) eqn:C.
   - right. split; [exact E|]. apply orb_true_iff in C. destruct C as [C|C]; apply PeanoNat.Nat.ltb_lt in C; cbn [fst]; auto.
   - left. cbn [start_begin fst snd stat]. split; [reflexivity | eexists; reflexivity].
@@ -1398,5 +1430,5 @@ Proof.
   assert (X : start_begin c sp = start_begin c sp) by reflexivity.
   assert (CO : choose_ops c sp = co) by (unfold choose_ops; change (pick sp) with (pick s1); rewrite Pk, Ao; reflexivity).
   assert (CR : choose_srs c sp = cr) by (unfold choose_srs; change (pick sp) with (pick s1); rewrite Pk, Ar; reflexivity).
-  destruct E as [E|E]; rewrite E, C; unfold start_begin; rewrite CO, CR; cbn [fst snd a_ops a_srs]; auto.
+  destruct E as [E|E]; rewrite E; unfold try_assemble; rewrite C; unfold start_begin; rewrite CO, CR; cbn [fst snd a_ops a_srs]; auto.
 Qed.
